@@ -59,13 +59,19 @@ Definition find_hook (cfg : config) (h : N) : option hook :=
 Record qstate := mkQ {
   q_name : N;
   q_items : list task;
-  q_running : option bool
-    (* Some isSync: the worker is inside the handler of the head task (a hook execution is
-       open); isSync is hookMeta.IsSynchronization() as computed when the task was picked,
+  q_running : option bool;
+    (* Some isSync: the worker is blocked on the head task: inside its handler (a hook
+       execution is open) or - when [q_delay] - in the back-off delay after its failure;
+       isSync is hookMeta.IsSynchronization() as computed when the task was picked,
        i.e. BEFORE combining *)
+  q_delay : bool
+    (* the worker sits in waitForTask(sleepDelay) after a failed run of the head task: no
+       execution is open, nothing of this queue is started until the delay elapses *)
 }.
 
 Definition is_running (q : qstate) : bool := match q_running q with Some _ => true | None => false end.
+(* a hook execution is open *)
+Definition in_handler (q : qstate) : bool := is_running q && negb (q_delay q).
 
 Record state := mkSt {
   queues : list qstate;
@@ -80,8 +86,12 @@ Inductive action :=
 | Tick (c : N)                         (* a crontab fires: ScheduleManager.Ch() *)
 | KubeEv (mon : N) (obj : N)           (* an unlocked monitor emits an event: KubeEventsManager.Ch();
                                           obj numbers the event (object and watch-event type) *)
-| Finish (q : N) (ok : bool)           (* the hook execution open in queue q ends *)
-| Stop.                                (* Shutdown() *)
+| Finish (q : N) (ok : bool)           (* the hook execution open in queue q ends; after a
+                                          failure the queue's back-off delay is zero *)
+| Stop                                 (* Shutdown() *)
+| FinishWait (q : N)                   (* the execution open in queue q ends with a failure and the
+                                          queue's back-off function returns a positive delay *)
+| Elapse (q : N).                      (* the back-off delay of queue q is over *)
 
 (* ---- bootstrap ---- *)
 
@@ -118,11 +128,11 @@ Definition boot_main (cfg : config) : list task :=
 Definition has_queue (qs : list qstate) (n : N) : bool := existsb (fun q => N.eqb (q_name q) n) qs.
 
 Definition add_queue (qs : list qstate) (n : N) : list qstate :=
-  if has_queue qs n then qs else qs ++ [mkQ n [] None].
+  if has_queue qs n then qs else qs ++ [mkQ n [] None false].
 
 (* initAndStartHookQueues: queues of schedule bindings first, then of kubernetes bindings *)
 Definition boot_queues (cfg : config) : list qstate :=
-  let qs0 := [mkQ 0 (boot_main cfg) None] in
+  let qs0 := [mkQ 0 (boot_main cfg) None false] in
   let qs1 := fold_left add_queue (flat_map (fun h => map sb_queue (h_sched h)) cfg) qs0 in
   fold_left add_queue (flat_map (fun h => map kb_queue (h_kube h)) cfg) qs1.
 
@@ -153,7 +163,7 @@ Fixpoint append_task (qs : list qstate) (t : task) : list qstate :=
   match qs with
   | [] => []
   | q :: r => if N.eqb (q_name q) (t_queue t)
-              then mkQ (q_name q) (q_items q ++ [t]) (q_running q) :: r
+              then mkQ (q_name q) (q_items q ++ [t]) (q_running q) (q_delay q) :: r
               else q :: append_task r t
   end.
 Definition append_tasks (qs : list qstate) (ts : list task) : list qstate :=
@@ -280,7 +290,7 @@ Fixpoint advance_all (cfg : config) (qok : N -> bool) (qs : list qstate) (sh : s
       else
         let '(items, run, sh1) := advance_q (fuel_for cfg (q_items q)) cfg qok (q_items q) sh in
         let (r', sh') := advance_all cfg qok r sh1 in
-        (mkQ (q_name q) items run :: r', sh')
+        (mkQ (q_name q) items run false :: r', sh')
   end.
 
 Definition advance (cfg : config) (s : state) : state :=
@@ -296,22 +306,36 @@ Definition incr_fail (t : task) : task :=
 
 (* Finish in queue [q]: the handler computes the status (allowFailure of the task, which
    after combining is the head's), unlocks after a successful Synchronization, returns;
-   the worker then checks ctx.Done: when stopped the result is NOT applied. *)
-Fixpoint finish_in (qs : list qstate) (qn : N) (ok stp : bool) (unl : list N) : list qstate * list N :=
+   the worker then checks ctx.Done: when stopped the result is NOT applied.  After a failure
+   the worker asks the back-off function for the delay: zero - the task is picked again at
+   once; positive ([wait]) - the worker waits in waitForTask, blocked on the same head. *)
+Fixpoint finish_in (qs : list qstate) (qn : N) (ok stp wait : bool) (unl : list N) : list qstate * list N :=
   match qs with
   | [] => ([], unl)
   | q :: r =>
       if N.eqb (q_name q) qn then
-        match q_running q, q_items q with
-        | Some sync, t :: rest =>
+        match q_running q, q_items q, q_delay q with
+        | Some sync, t :: rest, false =>
             let success := ok || t_allow t in
             let unl' := if success && sync then unl ++ t_mids t else unl in
-            if stp then (mkQ (q_name q) (q_items q) None :: r, unl')
-            else if success then (mkQ (q_name q) rest None :: r, unl')
-            else (mkQ (q_name q) (incr_fail t :: rest) None :: r, unl')
-        | _, _ => (q :: r, unl)
+            if stp then (mkQ (q_name q) (q_items q) None false :: r, unl')
+            else if success then (mkQ (q_name q) rest None false :: r, unl')
+            else if wait then (mkQ (q_name q) (incr_fail t :: rest) (Some false) true :: r, unl')
+            else (mkQ (q_name q) (incr_fail t :: rest) None false :: r, unl')
+        | _, _, _ => (q :: r, unl)
         end
-      else let (r', unl') := finish_in r qn ok stp unl in (q :: r', unl')
+      else let (r', unl') := finish_in r qn ok stp wait unl in (q :: r', unl')
+  end.
+
+(* the back-off delay of queue [qn] is over (waitForTask returns the head task; when the
+   context is cancelled it returns nil and the worker exits: [advance] does nothing then) *)
+Fixpoint elapse_in (qs : list qstate) (qn : N) : list qstate :=
+  match qs with
+  | [] => []
+  | q :: r =>
+      if N.eqb (q_name q) qn
+      then (if q_delay q then mkQ (q_name q) (q_items q) None false else q) :: r
+      else q :: elapse_in r qn
   end.
 
 Definition step (cfg : config) (s : state) (a : action) : state :=
@@ -326,9 +350,13 @@ Definition step (cfg : config) (s : state) (a : action) : state :=
     | KubeEv m o => mkSt (append_tasks (queues s) (kube_tasks cfg (unlocked s) m o))
                            (sched_on s) (unlocked s) (mon_started s) (stopped s)
     | Finish qn ok =>
-        let (qs, unl) := finish_in (queues s) qn ok (stopped s) (unlocked s) in
+        let (qs, unl) := finish_in (queues s) qn ok (stopped s) false (unlocked s) in
         mkSt qs (sched_on s) unl (mon_started s) (stopped s)
     | Stop => mkSt (queues s) (sched_on s) (unlocked s) (mon_started s) true
+    | FinishWait qn =>
+        let (qs, unl) := finish_in (queues s) qn false (stopped s) true (unlocked s) in
+        mkSt qs (sched_on s) unl (mon_started s) (stopped s)
+    | Elapse qn => mkSt (elapse_in (queues s) qn) (sched_on s) (unlocked s) (mon_started s) (stopped s)
     end in
   advance cfg s1.
 
